@@ -300,6 +300,26 @@ pub fn run_c12(ctx: &mut Ctx) {
         rep_json,
     );
     run_c12_tactical(ctx);
+    run_prop(
+        ctx,
+        "forced_return_to_a_twice_seen_position",
+        || any::<u64>(),
+        t.pick(1_600, 40_000),
+        |seed, st| {
+            let Some((start, moves)) = find_forced_return(*seed, 3_000) else {
+                st.label("no_forced_return_game_found");
+                return Ok(());
+            };
+            let Ok(case) = make_case(&start, &moves) else { return Ok(()) };
+            st.sample(|| case_json(&start, &moves));
+            st.label("case_with_repetition_history");
+            c12_case(&case, st)
+        },
+        |seed| match find_forced_return(*seed, 3_000) {
+            Some((start, moves)) => case_json(&start, &moves),
+            None => json!({"fen": null}),
+        },
+    );
 }
 fn run_c12_tactical(ctx: &mut Ctx) {
     let t = ctx.tier;
@@ -340,6 +360,112 @@ fn run_c12_tactical(ctx: &mut Ctx) {
         },
         rep_json,
     );
+}
+
+/// Directed search for games in which the materially lost side can reach a twice-seen position only
+/// by force and by transposition: at the root T (loser to move) a rook or queen check has exactly
+/// one legal reply, a king step b->a, after which the checking piece simply goes home - and that
+/// position S (winner's king on a, winner to move) has occurred twice in a game that went
+/// S: Ka-b (=T), m, Kb-a, m-back (=S), Ka-b (=T, the root). No move of the root repeats anything at
+/// once, the draw is three plies deep and the last of them is a quiet move.
+pub fn forced_return_candidate(x: &mut u64) -> Option<(Pos, Vec<Move>)> {
+    let mut next = |n: u64| -> u64 {
+        *x = x.wrapping_mul(6364136223846793005).wrapping_add(1442695040888963407);
+        ((*x >> 33) * n) >> 31
+    };
+    let w_white = next(2) == 0; // the winner's colour
+    let (wc, lc) = if w_white { (Color::White, Color::Black) } else { (Color::Black, Color::White) };
+    let mut t = Pos::empty();
+    let mut put = |t: &mut Pos, s: u64, c: Color, k: Kind| -> bool {
+        if t.sq[s as usize].is_some() || (k == Kind::Pawn && (s / 8 == 0 || s / 8 == 7)) {
+            return false;
+        }
+        t.sq[s as usize] = Some((c, k));
+        true
+    };
+    // winner: king (often on the rim), queen, up to two minors, up to three pawns; loser: king, rook, up to two pawns
+    let rim: Vec<u64> = (0..64u64).filter(|s| s % 8 == 0 || s % 8 == 7 || s / 8 == 0 || s / 8 == 7).collect();
+    let wk = if next(3) != 0 { rim[next(rim.len() as u64) as usize] } else { next(64) };
+    put(&mut t, wk, wc, Kind::King);
+    if !put(&mut t, next(64), lc, Kind::King) || !put(&mut t, next(64), wc, Kind::Queen) || !put(&mut t, next(64), lc, if next(4) == 0 { Kind::Queen } else { Kind::Rook }) {
+        return None;
+    }
+    for _ in 0..next(3) {
+        put(&mut t, next(64), wc, if next(2) == 0 { Kind::Knight } else { Kind::Bishop });
+    }
+    for _ in 0..next(4) {
+        // winner's pawns tend to stand next to its king (a shield that limits the king's flight squares)
+        let s = (((wk / 8) as i64 + next(3) as i64 - 1).clamp(1, 6) * 8 + ((wk % 8) as i64 + next(3) as i64 - 1).clamp(0, 7)) as u64;
+        put(&mut t, s, wc, Kind::Pawn);
+    }
+    for _ in 0..next(3) {
+        put(&mut t, next(64), lc, Kind::Pawn);
+    }
+    t.stm = lc;
+    if !t.is_legal_position() || t.in_check(lc) {
+        return None;
+    }
+    // the side that can force the return must be the materially lost one (by a minor piece at least)
+    let val = |k: Kind| match k {
+        Kind::Pawn => 100,
+        Kind::Knight | Kind::Bishop => 320,
+        Kind::Rook => 500,
+        Kind::Queen => 900,
+        Kind::King => 0,
+    };
+    let bal: i32 = t.sq.iter().flatten().map(|&(c, k)| if c == wc { val(k) } else { -val(k) }).sum();
+    if bal < 300 {
+        return None;
+    }
+    let b = wk as u8;
+    for l1 in t.legal_moves() {
+        let piece = t.sq[l1.from as usize].map(|x| x.1);
+        if !matches!(piece, Some(Kind::Rook) | Some(Kind::Queen)) || t.sq[l1.to as usize].is_some() {
+            continue;
+        }
+        let a1 = t.apply(&l1);
+        if !a1.in_check(wc) {
+            continue;
+        }
+        let replies = a1.legal_moves();
+        if replies.len() != 1 || replies[0].from != b || a1.sq[replies[0].to as usize].is_some() {
+            continue;
+        }
+        let w1 = replies[0].clone();
+        let a = w1.to;
+        let a2 = a1.apply(&w1);
+        let l2 = Move { from: l1.to, to: l1.from, promo: None };
+        if !a2.legal_moves().contains(&l2) {
+            continue;
+        }
+        let s_pos = a2.apply(&l2); // winner to move, king on a
+        // the game: S, Ka-b, m, Kb-a, m-back, Ka-b
+        let kab = Move { from: a, to: b, promo: None };
+        if !s_pos.legal_moves().contains(&kab) || s_pos.apply(&kab) != t {
+            continue;
+        }
+        for m in t.legal_moves() {
+            if t.sq[m.to as usize].is_some() || matches!(t.sq[m.from as usize], Some((_, Kind::Pawn))) || m == l1 {
+                continue;
+            }
+            let u = t.apply(&m);
+            let kba = Move { from: b, to: a, promo: None };
+            if !u.legal_moves().contains(&kba) {
+                continue;
+            }
+            let v = u.apply(&kba);
+            let mb = Move { from: m.to, to: m.from, promo: None };
+            if !v.legal_moves().contains(&mb) || v.apply(&mb) != s_pos {
+                continue;
+            }
+            return Some((s_pos, vec![kab.clone(), m, kba, mb, kab]));
+        }
+    }
+    None
+}
+pub fn find_forced_return(seed: u64, tries: u32) -> Option<(Pos, Vec<Move>)> {
+    let mut x = seed | 1;
+    (0..tries).find_map(|_| forced_return_candidate(&mut x))
 }
 
 pub fn replay_c12(case: &Value) -> CaseResult {
